@@ -38,6 +38,9 @@ var c08Programs = []c08prog{
 	{"closuregen", "def mk(n):\n    def g():\n        i = 0\n        while i < 2:\n            yield n + i\n            i = i + 1\n    return g\nvh.log(('pre', list(mk(TAG)())))\nvh.log(('post', sum(mk(TAG + 10)())))\n"},
 	{"typedict", "try:\n    vh.log(('pre', int.c08leak))\nexcept AttributeError:\n    vh.log(('pre', 'unset'))\ntry:\n    int.c08leak = TAG\n    vh.log(('post', 'set'))\nexcept (TypeError, AttributeError):\n    vh.log(('post', 'refused'))\n"},
 	{"filemodule", "import c08file\nvh.log(('pre', c08file.NAME, c08file.count))\nc08file.count = c08file.count + TAG\nimport c08file as again\nvh.log(('post', again.NAME, again.count))\n"},
+	{"excattr", "for mk in (lambda: 1 / 0, lambda: 1.5 // 0.0, lambda: 1 << -1, lambda: 2 % 0, lambda: int('x')):\n    try:\n        mk()\n    except Exception as e:\n        vh.log(('pre', isinstance(getattr(e, 'c08tag', 'unset'), int)))\n        try:\n            e.c08tag = TAG\n        except (AttributeError, TypeError):\n            pass\n"},
+	{"syntaxerr", "vh.log(('pre', TAG))\ncompile('if 1:\\n\\tx = 1\\n        y = 2\\n', 'file' + str(TAG) + '.py', 'exec')\n"},
+	{"indenterr", "vh.log(('pre', TAG))\ncompile('\\n' * TAG + '  x = 1\\n', 'ind' + str(TAG) + '.py', 'exec')\n"},
 	{"environ", "import os\nvh.log(('pre', os.environ.get('C08_VAR', 'unset')))\nos.environ['C08_VAR'] = str(TAG)\nvh.log(('post', os.environ.get('C08_VAR')))\n"},
 }
 
@@ -49,6 +52,7 @@ func init() {
 }
 
 type c08run struct {
+	err  error // what RunCode returned (kept: the embedder may look at it after other contexts ran)
 	ctx  py.Context
 	vh   *py.Module
 	mod  *py.Module
@@ -133,12 +137,39 @@ func c08prepare(p c08prog, tag int) *c08run {
 
 func (r *c08run) exec() string {
 	_, err := r.ctx.RunCode(r.code, r.mod.Globals, r.mod.Globals, nil)
+	r.err = err
 	s := strings.Join(r.log.Entries, ";")
 	if err != nil {
 		t, _, _, _ := harness.ExcInfo(err)
 		s += " !" + t
 	}
 	return s
+}
+
+// where: for an escaping syntax error, the file and line the error object names - read when
+// the embedder gets round to it, possibly after other contexts have run
+func (r *c08run) where() string {
+	if r.err == nil {
+		return ""
+	}
+	var ex *py.Exception
+	switch e := r.err.(type) {
+	case py.ExceptionInfo:
+		ex, _ = e.Value.(*py.Exception)
+	case *py.ExceptionInfo:
+		ex, _ = e.Value.(*py.Exception)
+	case *py.Exception:
+		ex = e
+	}
+	if ex == nil || ex.Dict == nil {
+		return ""
+	}
+	fn, ok1 := ex.Dict["filename"]
+	ln, ok2 := ex.Dict["lineno"]
+	if !ok1 && !ok2 {
+		return ""
+	}
+	return " @" + harness.Canon(fn) + ":" + harness.Canon(ln)
 }
 
 func c08Run(rc *core.RunCtx) {
@@ -179,6 +210,7 @@ func c08Run(rc *core.RunCtx) {
 					l1 := r1.exec()
 					r2 := c08prepare(b, 2)
 					l2 := r2.exec()
+					l1, l2 = l1+r1.where(), l2+r2.where()
 					r1.ctx.Close()
 					r2.ctx.Close()
 					rc.Eval("sequential", "seq:"+optv+":"+a.name+">"+b.name)
@@ -216,6 +248,7 @@ func c08Run(rc *core.RunCtx) {
 						r2.exec()
 						r3 := c08prepare(c, 3)
 						l3 := r3.exec()
+						l3 += r3.where()
 						r1.ctx.Close()
 						r2.ctx.Close()
 						r3.ctx.Close()
@@ -264,6 +297,7 @@ func c08Run(rc *core.RunCtx) {
 					x.Go("ctx1", func() { l1 = r1.exec() })
 					x.Go("ctx2", func() { l2 = r2.exec() })
 					x.Run()
+					l1, l2 = l1+r1.where(), l2+r2.where()
 					r1.ctx.Close()
 					r2.ctx.Close()
 					if x.Diverged || x.Pruned {
@@ -317,6 +351,10 @@ func c08Match(got, exp string) bool {
 		if got == e {
 			return true
 		}
+		// a trailing ";*" leaves the last log entry open (its text is not this property's subject)
+		if strings.HasSuffix(e, ";*") && strings.HasPrefix(got, strings.TrimSuffix(e, "*")) {
+			return true
+		}
 	}
 	return false
 }
@@ -361,6 +399,15 @@ func c08ExpectedLog(p c08prog, tag int) string {
 		return "('pre','unset');('post','set')|('pre','unset');('post','refused')"
 	case "environ":
 		return "('pre','unset');('post','" + t + "')"
+	case "excattr":
+		// the attribute a context sets on an exception it caught is never there for another
+		// context (whether setting it is allowed at all is not the point)
+		return strings.Repeat("('pre',False);", 4) + "('pre',False)"
+	case "syntaxerr":
+		return "('pre'," + t + ") !TabError @'file" + t + ".py':3|('pre'," + t + ") !IndentationError @'file" + t + ".py':3"
+	case "indenterr":
+		w := " @'ind" + t + ".py':" + itoa(tag+1)
+		return "('pre'," + t + ") !IndentationError" + w + "|('pre'," + t + ") !SyntaxError" + w
 	case "filemodule":
 		if c08Opts == "empty" {
 			return " !ImportError" // no search path: the module cannot be found (and must not come from another context)
@@ -376,7 +423,7 @@ func init() {
 		Level:    "model_checking",
 		Mode:     "ov",
 		RacePass: true,
-		Rule: "14 programs, each reading, mutating and re-reading one piece of state reachable from Python (module global, sys.path, sys.argv, a rebound builtin, attributes of a Go module, state of a source module registered once, class attribute, mutable default, the harness log, closures/generators, a built-in type's dict, os.environ, a source file module that every context finds under the same name on its own search path), every context running a code object shared by all contexts. " +
+		Rule: "17 programs, each reading, mutating and re-reading one piece of state reachable from Python (module global, sys.path, sys.argv, a rebound builtin, attributes of a Go module, state of a source module registered once, class attribute, mutable default, the harness log, closures/generators, a built-in type's dict, os.environ, a source file module that every context finds under the same name on its own search path, attributes of the exception objects the runtime raises for common errors, the file and line of a syntax error read back after the other context ran), every context running a code object shared by all contexts. " +
 			"(a) all ordered pairs (thorough: triples) run back to back in distinct contexts of one process; (b) all pairs on two goroutines under the cooperative scheduler with a scheduling point at every VM instruction, every schedule within the preemption bound. Oracle: each context's log equals the log the program produces in a context nothing else can influence. Every case is non-trivial.",
 		Run: c08Run,
 		Assumptions: []string{"the scheduler cannot preempt inside a Go builtin; transient shared state used within one builtin call is reachable only by the auxiliary -race pass",
